@@ -28,16 +28,18 @@ BUDGET = {"quick": 900, "thorough": 3400}
 XTAL = {"NaCl": ("NaCl-prim-2", [[2, 0, 0], [0, 1, 0], [0, 0, 1]]), "wz": ("wurtzite-4", [[1, 0, 0], [0, 1, 0], [0, 0, 1]]),
         # conventional cell with atoms listed Na,Cl,Na,Cl,... and a primitive matrix: unit-cell, supercell and primitive atoms are
         # related by non-trivial index maps
-        "NaClF": ("NaCl-conv-8-interleaved", [[1, 0, 0], [0, 1, 0], [0, 0, 1]], "F")}
+        "NaClF": ("NaCl-conv-8-interleaved", [[1, 0, 0], [0, 1, 0], [0, 0, 1]], "F"),
+        # the same small cell on an object created with the frequency_scale_factor option
+        "NaClS": ("NaCl-prim-2", [[2, 0, 0], [0, 1, 0], [0, 0, 1]], None, {"frequency_scale_factor": 1.1})}
 NACNAME = {"NaCl-conv-8-interleaved": "NaCl-prim-2"}
 
 OPS = ["fcA", "fcB", "fcAc", "fcV", "dsD1", "dsD2", "prodF", "prodC", "gen", "genT", "sym1", "symsg", "cut", "nacN", "nacW", "nacG", "nacG2", "nacE",
        "m0", "m1", "copy", "setF", "qQ", "qQd", "qM", "qMT", "qB"]
 QUERIES = ("qQ", "qQd", "qM", "qMT", "qB")
 # (root history, depth) per system: searching from non-initial states reaches longer histories at the same cost
-ROOTS = {"quick": {"NaCl": [([], 2), (["fcA"], 3), (["fcB", "nacG"], 2)], "wz": [(["fcB"], 2), (["fcA"], 2)], "NaClF": [(["fcA"], 2)]},
+ROOTS = {"quick": {"NaCl": [([], 2), (["fcA"], 3), (["fcB", "nacG"], 2)], "wz": [(["fcB"], 2), (["fcA"], 2)], "NaClF": [(["fcA"], 2)], "NaClS": [([], 2)]},
          "thorough": {"NaCl": [([], 3), (["fcA"], 4), (["fcB", "nacG"], 3), (["fcAc", "nacG", "qQ"], 3)], "wz": [([], 2), (["fcB"], 3), (["fcA"], 3)],
-                      "NaClF": [([], 2), (["fcA"], 3), (["fcV", "m1"], 3)]}}
+                      "NaClF": [([], 2), (["fcA"], 3), (["fcV", "m1"], 3)], "NaClS": [([], 2), (["fcA"], 3)]}}
 
 _env = {}
 
@@ -53,14 +55,15 @@ def _setup(system, seed):
 
     name, S = XTAL[system][:2]
     P = XTAL[system][2] if len(XTAL[system]) > 2 else None
+    KW = XTAL[system][3] if len(XTAL[system]) > 3 else {}
     c = phx.xtal(name)
-    ph = phx.make_phonopy(c, S, P)
+    ph = phx.make_phonopy(c, S, P, **KW)
     A = phx.supercell_fc(ph, phx.model_for(ph, "nn", seed))
     B = phx.supercell_fc(ph, phx.model_for(ph, "nn", seed + 17)) * 1.3
     # the second value set is deliberately NOT symmetric (drift + asymmetry), so that the symmetrisers and the cutoff change it
     B = B + 0.03 * np.abs(B).max() * np.random.default_rng(3 + seed).normal(size=B.shape)
     p2s = np.asarray(ph.primitive.p2s_map)
-    env = {"c": c, "S": S, "P": P, "A": A, "B": B, "Ac": A[p2s].copy(), "name": name}
+    env = {"c": c, "S": S, "P": P, "KW": KW, "A": A, "B": B, "Ac": A[p2s].copy(), "name": name}
     for tag, dist, fc in (("D1", 0.01, A), ("D2", 0.03, B)):
         phx.quiet(ph.generate_displacements, distance=dist)
         ds = copy.deepcopy(ph.dataset)
@@ -88,7 +91,7 @@ def _setup(system, seed):
 def _fresh(env, **kw):
     from vtk import phx
 
-    return phx.make_phonopy(env["c"], env["S"], env.get("P"), **kw)
+    return phx.make_phonopy(env["c"], env["S"], env.get("P"), **dict(env.get("KW") or {}, **kw))
 
 
 QS = np.array([[0.0, 0, 0], [0.1, 0.2, 0.3], [0.5, 0, 0], [0.0, 0.0, 0.02]])
